@@ -19,7 +19,8 @@ told that everything so far is detected by a checker that runs randomly generate
 configurations, histories, schedules and fault patterns against a reference, and was asked for
 what such a checker would still overlook; round 4 was told the same about the widened checker
 (dtypes, sizes, object histories, casts, copies, sibling objects) and asked for yet another
-kind of slip. Every change was confirmed before being kept: the patch applies, the library
+kind of slip; round 5 was told about the round-4 widenings as well and asked to prefer realistic
+conditions over rare ones. Every change was confirmed before being kept: the patch applies, the library
 imports, the demonstration exits non-zero with the change and zero without, and all 1848
 baseline-passing tests still pass with it (`tools/eval_mutation.py`, scratch worktree under
 /tmp, removed afterwards). The checks are run against each change applied to /repo itself
